@@ -1,268 +1,80 @@
 /-
   C13 — operator stop is final until operator start.
-  `C01_manual_stop` gives the reaction in the single-connection situation (Cease iff Established, close, all
-  timers stopped, Idle, automatic start forbidden); `C01_start_from_idle` / `C01_manual_start_ignored` give the
-  two halves of "manual start".  This file adds the general facts about stop and the quiet period after it.
+  Base theorems (Lemmas/Stopped.lean): `C13_stop_state` (whatever the state: Idle, all timers stopped, automatic start
+  forbidden), `C13_quiet_step` / `C13_quiet` (from the stopped situation no event but an operator start makes the agent
+  write a message or start a connection attempt), `C13_start` (start from the stopped situation connects at once and
+  re-enables automatic recovery), `C01_manual_stop` (Cease iff Established), `C01_manual_start_ignored`.
+  This file closes the gap the base theorems left open (their precondition "no attempt pending and no connection
+  open"): in EVERY reachable state a manual stop leads to the stopped situation - the tracked connection is closed
+  and the attempt in flight is given up (repaired defect C13-pending-attempt-adopted) - hence the quiet period holds
+  after a manual stop issued in any reachable state, for every continuation.
 -/
-import Yabgp.Props.C05
+import Yabgp.Lemmas.Stopped
+import Yabgp.Props.C12
 
 namespace Yabgp
 open Sess
 
 variable (U : Bool → Bytes → UpdClass)
 
-/-- whatever the state, after manual stop: Idle, every timer stopped, automatic start forbidden, and nothing was
-    connected -/
-theorem C13_stop_state (s : Sess) :
-    (s.manualStop).st = .idle ∧ (s.manualStop).tm = {} ∧ (s.manualStop).allowAuto = false := by
-  unfold manualStop
-  refine ⟨by simp, ?_, ?_⟩
-  · simp
-  · have h := (frm_setSt 0 ((((if s.st = .established then s.sendNotification C.errCease 0 [] else s).withTm {}).closeConn.withRetryCounter 0).withAllow false) .idle).scal.allow
-    show ((((((if s.st = .established then s.sendNotification C.errCease 0 [] else s).withTm {}).closeConn.withRetryCounter 0).withAllow false).setSt .idle).emit .retStop).allowAuto = false
-    exact h
+theorem Core.quiet_manualStop {c : Core} (h : Core.One c) (hp : Core.Pend c) :
+    ∀ j, j < c.manualStop.conns.length → (c.manualStop.conn j).1 = .closing ∨ (c.manualStop.conn j).1 = .closed := by
+  have h1 : Core.One ((((c.withTm false false).closeConn).withAllow false).withSt .idle) :=
+    Core.one_after_close (c := c.withTm false false) ⟨h.one, h.tracked⟩ rfl
+  have p1 : Core.Pend ((((c.withTm false false).closeConn).withAllow false).withSt .idle) :=
+    (Core.pend_closeConn (c := c.withTm false false) (hp.of_conns rfl rfl)).of_conns rfl rfl
+  have hnc := Core.noConnecting_abortPending p1
+  intro j hj
+  have hj' : j < ((((c.withTm false false).closeConn).withAllow false).withSt .idle).abortPending.conns.length := hj
+  have hncj := hnc j hj'
+  have hnotconn : (c.manualStop.conn j).1 ≠ .connected := by
+    intro hc
+    have hs := (Core.shrunk_abortPending ((((c.withTm false false).closeConn).withAllow false).withSt .idle)).2 j (Or.inr hc)
+    have hcc : ((((c.withTm false false).closeConn).withAllow false).withSt .idle).conn j = (c.withTm false false).closeConn.conn j := rfl
+    rw [Core.len_abortPending] at hj'
+    exact Core.noConnected_closeConn (c := c.withTm false false) ⟨h.one, h.tracked⟩ j hj' (by rw [← hcc, ← hs.2]; exact hc)
+  have hnotcing : (c.manualStop.conn j).1 ≠ .connecting := hncj
+  cases hph : (c.manualStop.conn j).1 with
+  | connecting => exact absurd hph hnotcing
+  | connected => exact absurd hph hnotconn
+  | closing => exact Or.inl rfl
+  | closed => exact Or.inr rfl
 
-/-- the stopped situation: automatic start forbidden, Idle, no timer running, and no connection attempt pending
-    nor connection open (those we closed may still be waiting for their connectionLost) -/
-structure Stopped (s : Sess) : Prop where
-  allow : s.allowAuto = false
-  st : s.st = .idle
-  tm : s.tm = {}
-  quiet : ∀ j, j < s.conns.length → (s.conn j).phase = .closing ∨ (s.conn j).phase = .closed
+/-- **Manual stop in any reachable state leads to the stopped situation**: Idle, no timer, automatic start forbidden,
+    and every connection closed or being closed - the one in flight included. -/
+theorem C13_stop_reaches_stopped (cfg : Cfg) (e0 : Ev) (he0 : e0 = .boot ∨ e0 = .manualStart) (evs : List Ev)
+    (hen : EnabledRun U (step U (bootWorld cfg) e0) evs) :
+    Stopped (step U (run U (bootWorld cfg) (e0 :: evs)) .manualStop).sess := by
+  have h0 := one_first U cfg e0 he0
+  have hboth := one_run U evs _ h0.1 h0.2 (heal_first U cfg e0 he0) hen
+  have hrun : run U (bootWorld cfg) (e0 :: evs) = run U (step U (bootWorld cfg) e0) evs := rfl
+  rw [hrun]
+  generalize (run U (step U (bootWorld cfg) e0) evs) = w at hboth
+  have hst := C13_stop_state (w.sess.withOuts [])
+  refine ⟨hst.2.2, hst.1, hst.2.1, ?_⟩
+  intro j hj
+  have hj2 : j < (w.sess.withOuts []).manualStop.conns.length := hj
+  have hcore : core (w.sess.withOuts []).manualStop = (core w.sess).manualStop := core_manualStop _
+  have hq := Core.quiet_manualStop hboth.1 hboth.2 j (by
+    rw [← hcore]; simpa [core] using hj2)
+  rw [← hcore, core_conn] at hq
+  exact hq
 
-def isNoise : Out → Bool
-  | .write .. => true
-  | .connect .. => true
-  | _ => false
+/-- **The quiet period, in full**: stop in any reachable state, then any continuation the environment can produce
+    without an operator start: no BGP message is written, no connection attempt is made, and the peer stays stopped. -/
+theorem C13_final (cfg : Cfg) (e0 : Ev) (he0 : e0 = .boot ∨ e0 = .manualStart) (evs cont : List Ev)
+    (hen : EnabledRun U (step U (bootWorld cfg) e0) evs)
+    (hne : ∀ e ∈ cont, e ≠ .manualStart)
+    (hcont : EnabledRun U (step U (run U (bootWorld cfg) (e0 :: evs)) .manualStop) cont) :
+    Stopped (run U (step U (run U (bootWorld cfg) (e0 :: evs)) .manualStop) cont).sess ∧
+    ∀ o ∈ runOuts U (step U (run U (bootWorld cfg) (e0 :: evs)) .manualStop) cont, isNoise o = false :=
+  C13_quiet U cont _ (C13_stop_reaches_stopped U cfg e0 he0 evs hen) hne hcont
 
-end Yabgp
-
-namespace Yabgp
-open Sess
-
-variable (U : Bool → Bytes → UpdClass)
-
-theorem Stopped.withOuts {s : Sess} (h : Stopped s) (v : List Out) : Stopped (s.withOuts v) :=
-  ⟨h.allow, h.st, h.tm, h.quiet⟩
-
-theorem phase_setPhase (s : Sess) (c : Nat) (p : Phase) (j : Nat) :
-    ((s.setPhase c p).conn j).phase = if c = j ∧ c < s.conns.length then p else (s.conn j).phase := by
-  simp only [setPhase, conn_setConn]; split <;> rfl
-
-theorem phase_setDisconnected (s : Sess) (c j : Nat) : ((s.setDisconnected c).conn j).phase = (s.conn j).phase := by
-  simp only [setDisconnected, conn_setConn]; split
-  · rename_i h; rw [h.1]
-  · rfl
-
-/-- closing a connection can only move a phase to `closing` -/
-theorem phase_closeOn (s : Sess) (i j : Nat) :
-    ((s.closeOn i).conn j).phase = (s.conn j).phase ∨ ((s.closeOn i).conn j).phase = .closing := by
-  unfold closeOn
-  split
-  · have e : ((((s.setPhase i .closing).setDisconnected i).emit (.lose i)).conn j) = ((s.setPhase i .closing).setDisconnected i).conn j := rfl
-    rw [e, phase_setDisconnected, phase_setPhase]
-    split
-    · exact Or.inr rfl
-    · exact Or.inl rfl
-  · split
-    · rw [phase_setDisconnected]; exact Or.inl rfl
-    · exact Or.inl rfl
-
-theorem outs_closeOn (s : Sess) (i : Nat) : ∀ o ∈ (s.closeOn i).outs, o ∈ s.outs ∨ o = .lose i := by
-  intro o ho
-  unfold closeOn at ho
-  split at ho
-  · have : (((s.setPhase i .closing).setDisconnected i).emit (.lose i)).outs = s.outs ++ [.lose i] := rfl
-    rw [this] at ho
-    rcases List.mem_append.mp ho with h | h
-    · exact Or.inl h
-    · exact Or.inr (by simpa using h)
-  · split at ho
-    · exact Or.inl ho
-    · exact Or.inl ho
-
-/-- the conns-and-outs part of `Stopped` is preserved by `_close_connection`, which adds no noise -/
-theorem quiet_closeConn (s : Sess) (hq : ∀ j, j < s.conns.length → (s.conn j).phase = .closing ∨ (s.conn j).phase = .closed) :
-    (∀ j, j < s.closeConn.conns.length → (s.closeConn.conn j).phase = .closing ∨ (s.closeConn.conn j).phase = .closed) ∧
-    (∀ o ∈ s.closeConn.outs, o ∈ s.outs ∨ isNoise o = false) := by
-  unfold closeConn
-  split
-  · exact ⟨hq, fun o ho => Or.inl ho⟩
-  · rename_i i _
-    constructor
-    · intro j hj
-      have hl : ((s.closeOn i).withRetryCounter 0).conns.length = s.conns.length := (frm_closeOn 0 i s).len
-      rw [hl] at hj
-      have e : (((s.closeOn i).withRetryCounter 0).conn j) = (s.closeOn i).conn j := rfl
-      rw [e]
-      rcases phase_closeOn s i j with h | h
-      · rw [h]; exact hq j hj
-      · exact Or.inl h
-    · intro o ho
-      have ho' : o ∈ (s.closeOn i).outs := ho
-      rcases outs_closeOn s i o ho' with h | h
-      · exact Or.inl h
-      · exact Or.inr (by rw [h]; rfl)
-
-theorem manualStop_of_stopped {s : Sess} (hs : Stopped s) (ho : s.outs = []) :
-    Stopped s.manualStop ∧ ∀ o ∈ s.manualStop.outs, isNoise o = false := by
-  have hne : ¬ s.st = .established := by simp [hs.st]
-  have hq := quiet_closeConn (s.withTm {}) hs.quiet
-  unfold manualStop
-  rw [if_neg hne]
-  refine ⟨⟨?_, by simp, by simp, ?_⟩, ?_⟩
-  · exact (frm_setSt 0 ((((s.withTm {}).closeConn).withRetryCounter 0).withAllow false) .idle).scal.allow
-  · intro j hj
-    have hl : ((((((s.withTm {}).closeConn).withRetryCounter 0).withAllow false).setSt .idle).emit .retStop).conns.length
-        = (s.withTm {}).closeConn.conns.length := (frm_setSt 0 ((((s.withTm {}).closeConn).withRetryCounter 0).withAllow false) .idle).len
-    rw [hl] at hj
-    have e : (((((((s.withTm {}).closeConn).withRetryCounter 0).withAllow false).setSt .idle).emit .retStop).conn j)
-        = (s.withTm {}).closeConn.conn j := by
-      simp [Sess.setSt, conn, Sess.emit, withSt, withAllow, withRetryCounter]
-    rw [e]; exact hq.1 j hj
-  · intro o hmem
-    have hst : ((((s.withTm {}).closeConn).withRetryCounter 0).withAllow false).setSt .idle
-        = ((((s.withTm {}).closeConn).withRetryCounter 0).withAllow false).withSt .idle := by
-      simp [Sess.setSt]
-    rw [hst] at hmem
-    have : ((((((s.withTm {}).closeConn).withRetryCounter 0).withAllow false).withSt .idle).emit .retStop).outs
-        = (s.withTm {}).closeConn.outs ++ [.retStop] := rfl
-    rw [this] at hmem
-    rcases List.mem_append.mp hmem with h | h
-    · rcases hq.2 o h with h' | h'
-      · have : (s.withTm {}).outs = [] := ho
-        rw [this] at h'; simp at h'
-      · exact h'
-    · simp at h; rw [h]; rfl
-
-/-- After a manual stop, as long as the operator does not start the peer again, NO event the environment can
-    produce — peer data, connection loss, time passing, timers, a repeated stop, the boot call — makes the agent
-    write a BGP message or start a connection attempt, and the stopped situation persists.
-    (Precondition `Stopped`: no attempt was pending and no connection open; the excluded case is the known finding
-    below.) -/
-theorem C13_quiet_step (w : World) (e : Ev) (hs : Stopped w.sess) (hne : e ≠ .manualStart)
-    (hen : enabled w.sess e = true) :
-    Stopped (step U w e).sess ∧ ∀ o ∈ (step U w e).sess.outs, isNoise o = false := by
-  have h0 := hs.withOuts []
-  cases e with
-  | manualStart => exact absurd rfl hne
-  | boot =>
-    have : (w.sess.withOuts []).autoStart false = w.sess.withOuts [] := by
-      have h1 : (w.sess.withOuts []).st = .idle := hs.st
-      have h2 : (w.sess.withOuts []).allowAuto = false := hs.allow
-      simp [autoStart, h1, h2]
-    simp only [step, this]
-    exact ⟨h0, by simp [withOuts]⟩
-  | manualStop => exact manualStop_of_stopped h0 rfl
-  | connOk c =>
-    simp only [enabled, Bool.and_eq_true, decide_eq_true_eq] at hen
-    rcases hs.quiet c hen.1 with h | h <;> simp [h] at hen
-  | connFail c =>
-    simp only [enabled, Bool.and_eq_true, decide_eq_true_eq] at hen
-    rcases hs.quiet c hen.1 with h | h <;> simp [h] at hen
-  | chunk c d =>
-    simp only [enabled, Bool.and_eq_true, decide_eq_true_eq] at hen
-    rcases hs.quiet c hen.1 with h | h <;> simp [h] at hen
-  | lost c =>
-    simp only [step, connLost]
-    -- the state right after the connection is marked closed and the application told
-    have hS : Stopped (((w.sess.withOuts []).setPhase c .closed).emit (.hConnLost c)) := by
-      refine ⟨hs.allow, hs.st, hs.tm, ?_⟩
-      intro j hj
-      have hj' : j < w.sess.conns.length := by simpa [setPhase, setConn, withConns, Sess.emit, withOuts] using hj
-      have e1 : (((w.sess.withOuts []).setPhase c .closed).emit (.hConnLost c)).conn j
-          = ((w.sess.withOuts []).setPhase c .closed).conn j := rfl
-      rw [e1, phase_setPhase]
-      split
-      · exact Or.inr rfl
-      · exact hs.quiet j hj'
-    have hO : ∀ o ∈ (((w.sess.withOuts []).setPhase c .closed).emit (.hConnLost c)).outs, isNoise o = false := by
-      intro o ho
-      have : (((w.sess.withOuts []).setPhase c .closed).emit (.hConnLost c)).outs = [.hConnLost c] := rfl
-      rw [this] at ho; simp at ho; rw [ho]; rfl
-    generalize (((w.sess.withOuts []).setPhase c .closed).emit (.hConnLost c)) = t at hS hO
-    split
-    · -- we had closed it ourselves: connection_closed
-      have hdrop : Stopped (t.dropEstab (some c)) ∧ ∀ o ∈ (t.dropEstab (some c)).outs, isNoise o = false := by
-        simp only [dropEstab]
-        by_cases he : t.estab = some c
-        · rw [if_pos he]
-          refine ⟨⟨?_, by simp, ?_, ?_⟩, ?_⟩
-          · exact ((frm_setSt 0 (t.withEstab none) .idle).scal.allow).trans hS.allow
-          · rw [tm_setSt]; exact hS.tm
-          · intro j hj
-            have hl : ((t.withEstab none).setSt .idle).conns.length = t.conns.length := (frm_setSt 0 (t.withEstab none) .idle).len
-            rw [hl] at hj
-            have e2 : (((t.withEstab none).setSt .idle).conn j) = t.conn j := by
-              unfold Sess.setSt; split <;> rfl
-            rw [e2]; exact hS.quiet j hj
-          · intro o ho
-            have : ((t.withEstab none).setSt .idle).outs = t.outs := by
-              unfold Sess.setSt
-              rw [if_neg (by simp)]
-              rfl
-            rw [this] at ho; exact hO o ho
-        · rw [if_neg he]; exact ⟨hS, hO⟩
-      unfold connectionClosed
-      rw [if_neg (by simp [hdrop.1.allow])]
-      exact hdrop
-    · -- the peer closed it: connection_failed in Idle does nothing
-      have : t.connectionFailed = t := by simp only [connectionFailed, hS.st]
-      rw [this]; exact ⟨hS, hO⟩
-  | advance dt =>
-    simp only [step]
-    exact ⟨⟨hs.allow, hs.st, hs.tm, hs.quiet⟩, by simp [withNow, withOuts]⟩
-  | fire t =>
-    simp only [enabled] at hen
-    cases t <;> simp [timerOf, hs.tm] at hen
-
-/-- every event of the list is one the environment can produce in the state it meets -/
-def EnabledRun : World → List Ev → Prop
-  | _, [] => True
-  | w, e :: r => enabled w.sess e = true ∧ EnabledRun (step U w e) r
-
-/-- all outputs produced along a run, in order -/
-def runOuts : World → List Ev → List Out
-  | _, [] => []
-  | w, e :: r => (step U w e).sess.outs ++ runOuts (step U w e) r
-
-/-- the quiet period, for every continuation: along any sequence of environment events without a manual start the
-    agent never writes a BGP message and never starts a connection attempt, and it is still stopped at the end -/
-theorem C13_quiet (evs : List Ev) : ∀ (w : World), Stopped w.sess →
-    (∀ e ∈ evs, e ≠ .manualStart) → EnabledRun U w evs →
-    Stopped (run U w evs).sess ∧ ∀ o ∈ runOuts U w evs, isNoise o = false := by
-  induction evs with
-  | nil => intro w hs _ _; exact ⟨hs, fun o ho => by simp [runOuts] at ho⟩
-  | cons e r ih =>
-    intro w hs hne hen
-    have h1 := C13_quiet_step U w e hs (hne e (by simp)) hen.1
-    have ih' := ih (step U w e) h1.1 (fun e' he' => hne e' (by simp [he'])) hen.2
-    refine ⟨ih'.1, ?_⟩
-    intro o ho
-    simp only [runOuts] at ho
-    rcases List.mem_append.mp ho with h | h
-    · exact h1.2 o h
-    · exact ih'.2 o h
-
-/-- manual start from the stopped situation begins connecting at once and re-enables automatic recovery -/
-theorem C13_start (s : Sess) (hs : Stopped s) :
-    (s.manualStart).st = .connect ∧ (s.manualStart).allowAuto = true ∧
-    (s.manualStart).outs = s.outs ++ [.connect s.conns.length, .retStart 1] :=
-  let h := (C01_start_from_idle s hs.st).1
-  ⟨h.1, h.2.2.2, h.2.1⟩
-
-/-- KNOWN FINDING (C13-pending-attempt-adopted-after-stop), model side: a connect attempt that was pending at manual
-    stop is adopted when it succeeds — the agent writes its OPEN although the operator stopped the peer. -/
-theorem KF_C13_pending_attempt_adopted :
-    (run exU (bootWorld exCfg) [.boot, .manualStop]).sess.allowAuto = false ∧
-    (run exU (bootWorld exCfg) [.boot, .manualStop]).sess.st = .idle ∧
-    ((run exU (bootWorld exCfg) [.boot, .manualStop, .connOk 0]).sess.outs.any isNoise) = true := by
-  decide
+/-- non-vacuity: stop while the first attempt is in flight, then the peer "accepts": not an event any more -/
+example : Stopped (step exU (run exU (bootWorld exCfg) [.boot]) .manualStop).sess :=
+  C13_stop_reaches_stopped exU exCfg .boot (Or.inl rfl) [] trivial
 
 end Yabgp
 
-#print axioms Yabgp.C13_stop_state
-#print axioms Yabgp.C13_quiet_step
-#print axioms Yabgp.C13_quiet
-#print axioms Yabgp.C13_start
-#print axioms Yabgp.KF_C13_pending_attempt_adopted
+#print axioms Yabgp.C13_stop_reaches_stopped
+#print axioms Yabgp.C13_final
